@@ -364,8 +364,25 @@ def reference(case):
         else:
             discs[n] = (False, d)
     D = lambda n, c: 0 if c == 0 else discs[n][1][min(c, 3) - 1]
+    # ---- float32 error model (absolute, linear space), propagated through the formulas the code evaluates.
+    # U = 2^-24 is one rounding of a float32 operation relative to its result.
+    #  * closed-form D_j (adjust_counts.cc CalculateDiscounts): y = float(n1)/float(n1+2n2) (2 roundings: cast, divide),
+    #    t = float(j+1)*y*float(n_{j+1})/float(n_j) (3 roundings), D_j = float(j) - t (1 rounding); every intermediate is
+    #    <= j+1 in magnitude, so |dD_j| <= 6*U*(j+1); we take C_D = 8 roundings (margin for the double->float casts).
+    #  * fallback D_j: one decimal->float conversion: U*|D_j|.
+    #  * gamma (initial_probabilities.cc AddRight): sum_i D_i*float(counts[i]) + normalizer, divided by the denominator:
+    #    3 multiplications, 3+1 additions, 1 division: 8 roundings relative to gamma, plus the propagated dD.
+    #  * u = (float(c) - D)/denominator: dD/den + 2 roundings;  p = u + gamma*p_lower: 2 more roundings, plus propagation.
+    U = 2.0 ** -24
+    dD = {}
+    for n in range(1, N + 1):
+        fbk, ds = discs[n]
+        dD[n] = [0.0] + [(U * float(ds[j - 1])) if fbk else (8 * U * (j + 1)) for j in (1, 2, 3)]
+    eD = lambda n, c: 0.0 if c == 0 else dD[n][min(c, 3)]
     u = {}
+    eu = {}
     gamma = [None] + [dict() for _ in range(N)]
+    egamma = [None] + [dict() for _ in range(N)]
     for n in range(1, N + 1):
         groups = collections.defaultdict(list)
         for g, c in adj[n].items():
@@ -374,36 +391,49 @@ def reference(case):
             den = sum(c for _, c in items)
             gam = Fraction(sum(c if pruned(g) else D(n, c) for g, c in items), den)
             gamma[n][ctx] = gam
+            egamma[n][ctx] = sum(0.0 if pruned(g) else eD(n, c) for g, c in items) / den + 8 * U * float(gam)
             for g, c in items:
                 u[g] = Fraction(c - D(n, c), den)
+                eu[g] = eD(n, c) / den + 2 * U * float(u[g])
     kept1 = [g for g in adj[1] if not pruned(g)]
     uniform = Fraction(1, len(kept1) - 1)
     interp = case.get("interp", True)
     g1 = gamma[1][()]
+    eg1 = egamma[1][()]
     p = {}
+    ep = {}
     for n in range(1, N + 1):
         for g in adj[n]:
             if n == 1:
                 if g == (BOS,):
                     p[g] = Fraction(1)
+                    ep[g] = 0.0
                 elif g == (UNK,):
                     p[g] = g1 * uniform if interp else g1
+                    ep[g] = (eg1 * float(uniform) + 3 * U * float(p[g])) if interp else eg1
                 else:
                     p[g] = u[g] + (g1 * uniform if interp else 0)
+                    ep[g] = eu[g] + ((eg1 * float(uniform) + 3 * U * float(p[g])) if interp else 0.0) + 2 * U * float(p[g])
             else:
-                p[g] = u[g] + gamma[n][g[:-1]] * p[g[1:]]
+                gm = gamma[n][g[:-1]]
+                p[g] = u[g] + gm * p[g[1:]]
+                ep[g] = eu[g] + egamma[n][g[:-1]] * float(p[g[1:]]) + float(gm) * ep[g[1:]] + 2 * U * float(p[g])
     grams = collections.defaultdict(dict)
+    errs = collections.defaultdict(dict)
     header = {}
     for n in range(1, N + 1):
         for g in adj[n]:
             if pruned(g):
                 continue
             bo = Fraction(1)
+            ebo = 0.0
             if n < N and g[-1] not in (UNK, EOS) and g in gamma[n + 1]:
                 bo = gamma[n + 1][g]
+                ebo = egamma[n + 1][g]
             grams[n][g] = (p[g], bo)
+            errs[n][g] = (ep[g], ebo)
         header[n] = len(grams[n])
-    return dict(cls="ok", stats=stats, discs=discs, grams=grams, header=header, uniform=uniform)
+    return dict(cls="ok", stats=stats, discs=discs, grams=grams, errs=errs, header=header, uniform=uniform)
 
 
 # ------------------------------------------------------------------------------ comparison
@@ -430,9 +460,25 @@ def tol_log10(order, lp):
     return (4 + 4 * order) * 2.0 ** -23 / math.log(10) * 4 + abs(lp) * 2.0 ** -22 + 2e-6
 
 
-def compare_model(tool_grams, tool_order, spec_grams, what="spec"):
-    """tool_grams: {n: {words: (logp, logbo)}} from the ARPA; spec_grams: {n: {words: (p, bo)}} exact.
-    Returns (list of problems, worst abs deviation)."""
+STATS = {"max_dev_over_tol": 0.0}
+SAFETY = 2.0      # the propagated bound is first order; twice that absorbs the second-order terms
+
+
+def tol_from_err(x, ex, lx):
+    """log10 tolerance for a value x (exact, linear) whose float32 evaluation is within ex (absolute, linear):
+    |d log10 x| <= ex/(x ln 10) to first order (exactly: -log10(1 - ex/x)), plus one float32 rounding of log10f's
+    result and of the printed/parsed decimal (2 * 2^-24 * |log10 x|), plus 2e-7 for log10f being within an ulp near 0."""
+    if x <= 0:
+        return float("inf")
+    r = SAFETY * ex / x
+    lin = float("inf") if r >= 0.5 else -math.log10(1.0 - r)
+    return lin + 2 * 2.0 ** -23 * abs(lx) + 2e-7
+
+
+def compare_model(tool_grams, tool_order, spec_grams, what="spec", errs=None):
+    """tool_grams: {n: {words: (logp, logbo)}} from the ARPA; spec_grams: {n: {words: (p, bo)}} exact;
+    errs: {n: {words: (abs error bound of p, of bo)}} from reference() (float32 error propagation); without it the
+    flat bound tol_log10 is used.  Returns (list of problems, worst abs deviation)."""
     problems = []
     worst = 0.0
     for n in range(1, tool_order + 1):
@@ -451,7 +497,11 @@ def compare_model(tool_grams, tool_order, spec_grams, what="spec"):
                 dev = 0 if ok else 99
             else:
                 dev = abs(lp - want)
-                ok = dev <= tol_log10(n, want)
+                e = errs.get(n, {}).get(g) if errs is not None else None
+                tl = tol_from_err(float(p), e[0], want) if e is not None else tol_log10(n, want)
+                ok = dev <= tl
+                if tl > 0 and tl != float("inf"):
+                    STATS["max_dev_over_tol"] = max(STATS["max_dev_over_tol"], dev / tl)
             worst = max(worst, dev if dev != 99 else 0)
             if not ok:
                 problems.append("order %d %r: log10 p tool %r vs %s %.7f" % (n, g, lp, what, want))
@@ -462,7 +512,11 @@ def compare_model(tool_grams, tool_order, spec_grams, what="spec"):
                 else:
                     dev = abs(lbo - wb)
                     worst = max(worst, dev)
-                    if dev > tol_log10(n + 1, wb):
+                    e = errs.get(n, {}).get(g) if errs is not None else None
+                    tl = tol_from_err(float(bo), e[1], wb) if (e is not None and bo > 0) else tol_log10(n + 1, wb)
+                    if tl > 0 and tl != float("inf") and dev == dev:
+                        STATS["max_dev_over_tol"] = max(STATS["max_dev_over_tol"], dev / tl)
+                    if dev > tl:
                         problems.append("order %d %r: log10 backoff tool %r vs %s %.7f" % (n, g, lbo, what, wb))
             elif lbo is not None:
                 problems.append("order %d %r: back-off on the highest order" % (n, g))
